@@ -32,6 +32,10 @@ CHECKS["C11"] = ("sched", "model_checking",
    "stateless model checking of the real message loop and the real per-request worker threads under a controlled scheduler: for every client script up to the bound, all interleavings of loop steps and worker steps (start / computing-with-read-access / computed / responded / exit) are executed on the real main_loop, one actor at a time, with prefix replay; each execution is checked against fresh-server answers (linearisation: a request is answered from a state at or after the notifications that precede it; final state = last text sent; one response per request)",
    "scheduling points are the verif-hooks events plus thread join; worker-worker steps are treated as commuting (handlers only read the server); rayon inside handlers is not scheduled",
    "stateless model checking (DFS over schedules with prefix replay and a sleep-set style partial-order reduction) of the implementation under a hook-driven cooperative scheduler", "§5 C11")
+CHECKS["C12"] = ("reqs", "model_checking",
+   "bounded exhaustive exploration of request sequences against the real main_loop: every message of a parameter alphabet (all handled methods, unknown methods, malformed params; URIs inside/outside the library; positions incl. out of range; rename names; code-action kinds and resolve data incl. stale ids) singly and in all ordered pairs (thorough: full pairs and triples with an edit in between); after each request the worker thread is joined and exactly one response with its id must exist, a liveness probe must answer like a fresh server, shutdown/exit must end the loop with Ok",
+   "no-response is decided by thread join (JoinHandle from the hooks), never by timeout; parameters are from the stated alphabet only",
+   "explicit-state enumeration of operation sequences (depth <= 2..3) on the implementation", "§5 C12")
 NOT_APPLICABLE = {}
 manifest = {
  "version": 1,
@@ -46,6 +50,7 @@ manifest = {
  "engines": [
    {"name": "histspace", "path": "/verif/mc/src/engines/hist.rs", "serves_properties": ["C04","C20"], "kind_free_text": "enumerates all update/insert histories up to a depth and runs them on the real Database / Server"},
    {"name": "sched", "path": "/verif/mc/src/engines/sched.rs", "serves_properties": ["C11"], "kind_free_text": "hook-driven cooperative scheduler exploring all interleavings of the real LSP message loop and request workers"},
+   {"name": "reqs", "path": "/verif/mc/src/engines/reqs.rs", "serves_properties": ["C12"], "kind_free_text": "drives every request of a parameter alphabet, singly and in sequences, through the real main_loop over an in-memory connection"},
    {"name": "docspace", "path": "/verif/mc/src/engines/docs.rs", "serves_properties": ["C01","C02","C03","C07"], "kind_free_text": "enumerates documents from a token alphabet / block grammar / inline grammar and runs the real formatter and server on each"},
  ],
  "checks": [],
